@@ -232,12 +232,26 @@ def scn_chain(T, case):
     integration.scn_filter_chain(T, case, "C05")
 
 
+# ------------------------------------------------------------------------------------ what the plan steps hand on (shared contract)
+def cases_steps(tier):
+    from contracts import stepcontract
+
+    return stepcontract.cases(tier)
+
+
+def scn_steps(T, case):
+    from contracts import stepcontract
+
+    stepcontract.scenario(T, case, "C05")
+
+
 SCENARIOS = [
     Scenario("sort_and_select", scn_select, cases_select, {"quick": 4, "thorough": 40}),
     Scenario("filter", scn_filter, cases_filter, {"quick": 10, "thorough": 60}),
     Scenario("check_range", scn_range, cases_range, {"quick": 1, "thorough": 1}),
     Scenario("filter_rows", scn_rows, cases_rows, {"quick": 3, "thorough": 20}),
     Scenario("filter_inside_the_evaluator", scn_chain, cases_chain, {"quick": 3, "thorough": 10}),
+    Scenario("plan_steps_hand_over", scn_steps, cases_steps, {"quick": 1, "thorough": 2}),
 ]
 
 MANIFEST = {
